@@ -80,7 +80,9 @@ theorem safeEnd_isDone {st : HSt} (h : st.safeEnd = true) : st.isDone = true := 
 
 /-- without the early-decrement variant's states, `safeEnd` is `done true` -/
 theorem safeEnd_done {st : HSt} (h : st.safeEnd = true) (he : st.early = false) : st = .done true := by
-  cases st <;> simp_all [HSt.safeEnd, HSt.early]
+  cases st with
+  | done ok => cases ok <;> simp_all [HSt.safeEnd]
+  | _ => simp_all [HSt.safeEnd, HSt.early]
 
 /-- what never goes back in a connection record -/
 structure ConnMono (k k' : Conn) : Prop where
@@ -441,7 +443,7 @@ theorem good_cDec (i : Nat) : Good (cDec i) := by
     · subst hx
       have := hs hcl q (mem_of_getElem? hq) hd
       rw [hst] at this
-      simp at this
+      simp [HSt.safeEnd] at this
 
 theorem stay_cDec (i : Nat) : Stay (cDec i) := by
   intro k k' h hb
@@ -502,6 +504,86 @@ theorem good_cRecvEof : Good cRecvEof := by
 
 theorem stay_cRecvEof : Stay cRecvEof := by
   intro k k' h hb; unfold cRecvEof at h; split at h <;> simp at h; subst h; exact hb
+
+/-! ### the early-decrement variant -/
+
+theorem good_cFinEarly (i : Nat) : Good (cFinEarly i) := by
+  refine ⟨?_, ?_, ?_⟩ <;> intro k k' h <;> unfold cFinEarly at h <;> split at h <;> try contradiction
+  all_goals (split at h <;> try contradiction)
+  all_goals (simp only [Option.some.injEq] at h; subst h)
+  all_goals rename_i q hq _ hst
+  · intro hi
+    refine ⟨?_, ?_, ?_, hi.bufNil, ?_, hi.regPc⟩
+    · simp only
+      have := countP_set_dec notDone k.reqs i q { q with st := .writePending } hq
+        (by simp [notDone, hst, HSt.isDone]) (by simp [notDone, HSt.isDone])
+      have hc := hi.count
+      omega
+    · intro ho x hx
+      simp at ho
+      rcases List.mem_or_eq_of_mem_set hx with hx | hx
+      · exact hi.openOk ho x hx
+      · subst hx
+        exact ⟨(hi.openOk ho q (mem_of_getElem? hq)).1, rfl⟩
+    · intro hc
+      have := hi.closedPc hc
+      have hpos : 0 < k.reqs.countP notDone :=
+        List.countP_pos_iff.mpr ⟨q, mem_of_getElem? hq, by simp [notDone, hst, HSt.isDone]⟩
+      have := hi.count
+      omega
+    · intro hc
+      have := hi.fresh hc
+      rw [this.1] at hq
+      simp at hq
+  · exact ⟨id, id, id, id⟩
+  · intro hi hs hcl x hx hd
+    simp at hcl
+    rcases List.mem_or_eq_of_mem_set hx with hx | hx
+    · exact hs hcl x hx hd
+    · subst hx; rfl
+
+theorem stay_cFinEarly (i : Nat) : Stay (cFinEarly i) := by
+  intro k k' h hb
+  unfold cFinEarly at h
+  split at h <;> try contradiction
+  split at h <;> try contradiction
+  simp only [Option.some.injEq] at h
+  subst h; exact hb
+
+theorem good_cLateWrite (i : Nat) : Good (cLateWrite i) := by
+  refine ⟨?_, ?_, ?_⟩ <;> intro k k' h <;> unfold cLateWrite at h <;> split at h <;> try contradiction
+  all_goals (split at h <;> try contradiction)
+  all_goals (simp only [Option.some.injEq] at h; subst h)
+  all_goals rename_i q hq _ hst
+  · intro hi
+    refine ⟨?_, ?_, hi.closedPc, hi.bufNil, ?_, hi.regPc⟩
+    · simp only
+      rw [countP_set_same notDone k.reqs i q _ hq (by simp [notDone, hst, HSt.isDone])]
+      exact hi.count
+    · intro ho x hx
+      simp at ho
+      rcases List.mem_or_eq_of_mem_set hx with hx | hx
+      · exact hi.openOk ho x hx
+      · subst hx
+        exact ⟨(hi.openOk ho q (mem_of_getElem? hq)).1, by simp [ho, HSt.ok]⟩
+    · intro hc
+      have := hi.fresh hc
+      rw [this.1] at hq
+      simp at hq
+  · exact ⟨id, id, id, id⟩
+  · intro hi hs hcl x hx hd
+    simp at hcl
+    rcases List.mem_or_eq_of_mem_set hx with hx | hx
+    · exact hs hcl x hx hd
+    · subst hx; rfl
+
+theorem stay_cLateWrite (i : Nat) : Stay (cLateWrite i) := by
+  intro k k' h hb
+  unfold cLateWrite at h
+  split at h <;> try contradiction
+  split at h <;> try contradiction
+  simp only [Option.some.injEq] at h
+  subst h; exact hb
 
 /-! ### the two functions applied from outside the connection's own goroutines -/
 
